@@ -14,11 +14,11 @@ open Discret.DailyLog
 /-- **C11 (invariant over any schedule).** Any number of peers, any op sequence (creations use fresh ids): in
     the state reached, no replica — and no committed state hidden behind an open writer batch — stores a row
     whose id carries a deletion record on that replica. -/
-theorem C11_invariant (rights : List Bool) (ops : List Op)
-    (hf : runFresh Defects.none (World.init rights) ops) :
-    let w := World.run Defects.none (World.init rights) ops
+theorem C11_invariant (rights : Rights) (ops : List Op)
+    (hf : runFresh Defects.none (World.initDated rights) ops) :
+    let w := World.run Defects.none (World.initDated rights) ops
     (∀ r ∈ w.peers, NoZombie r) ∧ (∀ r ∈ w.visible, NoZombie r) := by
-  have s := run_step (d := Defects.none) rfl rfl ops (World.init rights) (init_WZ rights) hf
+  have s := run_step (d := Defects.none) rfl rfl ops (World.initDated rights) (init_WZ rights) hf
   refine ⟨s.1.1, ?_⟩
   intro r hr
   unfold World.visible at hr
@@ -32,25 +32,25 @@ theorem C11_invariant (rights : List Bool) (ops : List Op)
 /-- **C11 (a deleted row stays deleted).** Once peer `p` stores a deletion record of row `i` (after `ops1`),
     then after ANY continuation `ops2` — pulls from peers that never saw the deletion included — peer `p`
     still stores a deletion record of `i` and stores no version of row `i` at all. -/
-theorem C11_deleted_stays_deleted (rights : List Bool) (ops1 ops2 : List Op) (p i : Nat)
-    (hf : runFresh Defects.none (World.init rights) (ops1 ++ ops2))
-    (hd : i ∈ ((World.run Defects.none (World.init rights) ops1).peer p).deadIds) :
-    let w := World.run Defects.none (World.init rights) (ops1 ++ ops2)
+theorem C11_deleted_stays_deleted (rights : Rights) (ops1 ops2 : List Op) (p i : Nat)
+    (hf : runFresh Defects.none (World.initDated rights) (ops1 ++ ops2))
+    (hd : i ∈ ((World.run Defects.none (World.initDated rights) ops1).peer p).deadIds) :
+    let w := World.run Defects.none (World.initDated rights) (ops1 ++ ops2)
     i ∈ (w.peer p).deadIds ∧ ∀ n ∈ (w.peer p).nodes, n.id ≠ i := by
-  have hsplit : World.run Defects.none (World.init rights) (ops1 ++ ops2) =
-      World.run Defects.none (World.run Defects.none (World.init rights) ops1) ops2 := by
+  have hsplit : World.run Defects.none (World.initDated rights) (ops1 ++ ops2) =
+      World.run Defects.none (World.run Defects.none (World.initDated rights) ops1) ops2 := by
     simp [World.run, List.foldl_append]
-  have hf1 : runFresh Defects.none (World.init rights) ops1 ∧
-      runFresh Defects.none (World.run Defects.none (World.init rights) ops1) ops2 := by
+  have hf1 : runFresh Defects.none (World.initDated rights) ops1 ∧
+      runFresh Defects.none (World.run Defects.none (World.initDated rights) ops1) ops2 := by
     clear hd hsplit
-    generalize World.init rights = w0 at hf ⊢
+    generalize World.initDated rights = w0 at hf ⊢
     induction ops1 generalizing w0 with
     | nil => exact ⟨trivial, hf⟩
     | cons op t ih =>
       obtain ⟨a, b⟩ := hf
       obtain ⟨c, e⟩ := ih _ b
       exact ⟨⟨a, c⟩, e⟩
-  have s1 := run_step (d := Defects.none) rfl rfl ops1 (World.init rights) (init_WZ rights) hf1.1
+  have s1 := run_step (d := Defects.none) rfl rfl ops1 (World.initDated rights) (init_WZ rights) hf1.1
   have s2 := run_step (d := Defects.none) rfl rfl ops2 _ s1.1 hf1.2
   simp only
   rw [hsplit]
